@@ -47,7 +47,8 @@ PROBES = ["mode_streaming", "mode_pingpong", "mode_sequential", "capacity_1", "c
           "close_at_boundary", "parsed_shared_schema", "zero_length_value", "omitted_default",
           "hint_tuple", "hint_dash_type", "float_special", "collection_ge64", "record_depth_ge3",
           "string_multibyte", "int_extreme", "array_as_tuple", "profile_huge", "profile_deep", "string_huge",
-          "bytes_huge", "collection_ge8192", "recursion_depth_ge30", "int_magnitude_threshold"]
+          "bytes_huge", "collection_ge8192", "recursion_depth_ge30", "int_magnitude_threshold", "profile_exotic_types",
+          "mapping_not_dict", "array_as_array_array"]
 
 
 def setup():
@@ -108,7 +109,10 @@ def run_one(ch, ctx):
         # swarm: size / depth profile per run
         huge = ch.chance(8)
         deep = ch.chance(8)
-        dg = gen.DataGen(ch, hints=True, tuples=True, max_len=3, huge=huge, deep=deep)
+        exotic = ch.chance(12)
+        dg = gen.DataGen(ch, hints=True, tuples=True, max_len=3, huge=huge, deep=deep, exotic=exotic)
+        if exotic:
+            ctx.probe("profile_exotic_types")
         if huge:
             ctx.probe("profile_huge")
         if deep:
